@@ -4,7 +4,7 @@ CFG = dict(
     imports=["From Coq Require String.", "Import String.StringSyntax.", "From Verif.C37 Require Import Model Spec."],
     checker="check_case",
     shard=30,
-    n=dict(quick=300, thorough=8000),
+    n=dict(quick=160, thorough=8000),
     rule="clusters of 8-40 identities per case run through the real name builders (GetLengthLimitedID directly with "
          "arbitrary prefix/limit, PolicyID.ID, Policy/Profile/EndpointChainName, PolicyGroup.ChainName, MakeUniqueID, "
          "NameForMainIPSet/NameForTempIPSet): suffixes at limit-1/limit/limit+1, starting with the marker '_', the text "
